@@ -8,16 +8,18 @@
 (*    kind    sorted(problem.kind.features) as computed by the real code   *)
 (*    expect, epos   G1 records only: the demand (label, position) the     *)
 (*            enumerated case was built to exhibit ("" otherwise)          *)
-(* Verdicts are total (Verdict is always TRUE):                            *)
-(*    <<"FAIL", id, "missing-" \o label, pos>>  for every demand of        *)
-(*          UPKinds!Demands(P) that the recorded kind does not honour      *)
-(*    <<"FAIL", id, "kind-raises-" \o class, "kind">>                      *)
+(* Verdicts are total (Verdict is always TRUE).  Printed tuples are short  *)
+(* on purpose (TLC wraps long lines); k numbers the unmet demands of one   *)
+(* record:                                                                 *)
+(*    <<"F", id, k, label>> and <<"P", id, k, pos>>   the recorded kind    *)
+(*          does not honour the demand [label, pos] of UPKinds!Demands(P)  *)
+(*    <<"F", id, 0, "kind-raises-" \o class>>   problem.kind raised        *)
 (*    <<"UNSPEC", id, zone>>   unspecified zone met (counted, not judged)  *)
-(*    <<"HIT", id>> / <<"LOST", id, expect, epos>>   vacuity control of    *)
-(*          G1: the projected problem does / does not exhibit the demand   *)
-(*          its case stands for (LOST is a machinery failure)              *)
+(*    <<"HIT", id>> / <<"LOST", id>>   vacuity control of G1: the          *)
+(*          projected problem does / does not exhibit the demand its case  *)
+(*          stands for (LOST is a machinery failure)                       *)
 (***************************************************************************)
-EXTENDS UPKinds, Json, IOUtils
+EXTENDS UPKinds, Json, IOUtils, SequencesExt
 
 Batch == ndJsonDeserialize(IOEnv.BATCH)
 VARIABLE id
@@ -25,18 +27,17 @@ Init == id \in DOMAIN Batch
 Next == UNCHANGED id
 Spec == Init /\ [][Next]_id
 
-Unmet(P, K) == {d \in Demands(P) : d.any \cap K = {}}
-
 Verdict ==
    LET r == Batch[id] IN
    IF r.raised # ""
-   THEN PrintT(<<"FAIL", r.id, "kind-raises-" \o r.raised, "kind">>)
+   THEN PrintT(<<"F", r.id, 0, "kind-raises-" \o r.raised>>)
    ELSE LET Dm == TLCEval(Demands(r.P))
-            K == Range(r.kind) IN
-        /\ \A d \in {x \in Dm : x.any \cap K = {}} : PrintT(<<"FAIL", r.id, "missing-" \o d.label, d.pos>>)
+            K == Range(r.kind)
+            us == SetToSeq({x \in Dm : x.any \cap K = {}}) IN
+        /\ \A k \in DOMAIN us : PrintT(<<"F", r.id, k, us[k].label>>) /\ PrintT(<<"P", r.id, k, us[k].pos>>)
         /\ \A u \in Unspecified(r.P) : PrintT(<<"UNSPEC", r.id, u[1]>>)
         /\ (r.expect # "" =>
               IF \E d \in Dm : d.label = r.expect /\ d.pos = r.epos
               THEN PrintT(<<"HIT", r.id>>)
-              ELSE PrintT(<<"LOST", r.id, r.expect, r.epos>>))
+              ELSE PrintT(<<"LOST", r.id>>))
 =============================================================================
